@@ -310,9 +310,10 @@ def pre_instantiate(hyps, goal, rounds=2, cap=160, parts=False):
         # these produced), and the small ground facts (bounds, branch conditions, definitions of the goal's constants)
         tiny = _instantiate(quants, [g0], 2, 140, set())
         tiny_nd = _instantiate(quants, [g0], 2, 140, set(), unfold_defs=False)      # opaque functions stay folded
+        tiny_1 = _instantiate(quants, [g0], 2, 140, set(), unfold_rounds=1)         # ... or are unfolded once (the goal's own)
         gsym = symbols(g0)
         small = [h for i, h in enumerate(ground_all) if (len(syms[i]) <= 6 and len(h.sexpr()) < 400) or (i in keep and (syms[i] & gsym) and len(syms[i]) <= 14)]
-        return small, (tiny, tiny_nd), first, rest
+        return small, (tiny, tiny_nd, tiny_1), first, rest
     return first + rest
 
 
@@ -336,7 +337,7 @@ def _const_classes(ground):
     return find
 
 
-def _instantiate(quants, ground, rounds, cap, seen_inst, unfold_defs=True):
+def _instantiate(quants, ground, rounds, cap, seen_inst, unfold_defs=True, unfold_rounds=99):
     inst, pairwise = [], []
     if cap <= 0:
         return []
@@ -347,7 +348,7 @@ def _instantiate(quants, ground, rounds, cap, seen_inst, unfold_defs=True):
             return True
         return (z3.is_const(a) and z3.is_const(b) and a.decl().kind() == z3.Z3_OP_UNINTERPRETED and b.decl().kind() == z3.Z3_OP_UNINTERPRETED
                 and find(a.decl().name()) == find(b.decl().name()))
-    for _ in range(rounds):
+    for round_no in range(rounds):
         sel = _ground_selects(ground + inst)
         apps = {}
         for f in ground + inst:
@@ -357,7 +358,7 @@ def _instantiate(quants, ground, rounds, cap, seen_inst, unfold_defs=True):
         for q in quants:
             nv = q.num_vars()
             dp = _def_pattern(q)
-            if dp is not None and not unfold_defs and dp[0] != "POW":
+            if dp is not None and (not unfold_defs or round_no >= unfold_rounds) and dp[0] != "POW":
                 continue
             if dp is not None:
                 # defining equation of an opaque specification function: unfold it at every ground application
@@ -511,13 +512,13 @@ def _uses(ob, name):
 
 Z3_CLI = os.environ.get("PYVC_Z3", "z3-new")
 # first pass: everything in parallel, short budgets.  "x@api" = the same query through z3's Python API in a child process
-SCHEDULE = (("defs", 0, 2), ("core", 0, 3), ("coreu", 0, 3), ("core!nlsat", 0, 3), ("ground!nlsat", 0, 3), ("ground", 0, 4), ("rel2", 0, 3), ("all", 0, 4), ("all@api", 0, 4), ("rel2@api", 1, 3), ("all@api!nombqi", 1, 3), ("rel2", 2, 3),
+SCHEDULE = (("defs", 0, 2), ("core", 0, 3), ("coreu", 0, 3), ("core1", 0, 3), ("core!nlsat", 0, 3), ("ground!nlsat", 0, 3), ("ground", 0, 4), ("rel2", 0, 3), ("all", 0, 4), ("all@api", 0, 4), ("rel2@api", 1, 3), ("all@api!nombqi", 1, 3), ("rel2", 2, 3),
             ("rel20", 0, 3), ("all0", 0, 4), ("defs0", 0, 2), ("all", 3, 3), ("rel2@api!nombqi", 4, 3), ("all@api", 5, 3), ("rel1", 7, 3), ("all!nombqi", 6, 3), ("rel3@api", 8, 3))
 # many short attempts: for the quantified queries generated here a proof, when the instantiation order is favourable, is found
 # within a second or two; an unfavourable order is not helped by waiting, but by another seed / hypothesis selection / front end
 
 # second pass: only what is still undecided (at most FAIL_CAP obligations per clause), few at a time, long budgets
-RETRY_SCHEDULE = (("core", 1, 20), ("coreu", 1, 15), ("core!nlsat", 0, 15), ("ground!nlsat", 0, 15), ("ground", 1, 20), ("all@api", 10, 20), ("all", 11, 15), ("all0", 3, 15), ("rel20", 2, 10), ("all0@api", 1, 15), ("defs", 7, 8), ("rel3@api!nombqi", 12, 8), ("rel2@api", 13, 10), ("all!nombqi", 42, 10),
+RETRY_SCHEDULE = (("core", 1, 20), ("coreu", 1, 15), ("core1", 1, 15), ("core!nlsat", 0, 15), ("ground!nlsat", 0, 15), ("ground", 1, 20), ("all@api", 10, 20), ("all", 11, 15), ("all0", 3, 15), ("rel20", 2, 10), ("all0@api", 1, 15), ("defs", 7, 8), ("rel3@api!nombqi", 12, 8), ("rel2@api", 13, 10), ("all!nombqi", 42, 10),
                   ("rel1@api", 14, 10), ("all@api", 15, 30))
 FALSE_GOAL_SCHEDULE = (("all", 0, 4), ("all@api", 1, 8), ("all", 2, 12))      # `pc => False` (an exceptional edge that must be unreachable): quick, a refutation needs a model anyway
 
@@ -656,7 +657,7 @@ def prepare(ob):
     if not ob.kind.startswith("canary") and ob.kind != "lemma" and any(z3.is_quantifier(h) or z3.is_and(h) for h in ob.hyps):
         try:
             ob.goal_sk, _ = skolemize(ob.goal)
-            core_ground, (inst_tiny, inst_tiny_nd), inst_first, inst_rest = pre_instantiate(list(ob.hyps) + [a_ for a_ in extra if z3.is_quantifier(a_)], ob.goal_sk, parts=True)
+            core_ground, (inst_tiny, inst_tiny_nd, inst_tiny_1), inst_first, inst_rest = pre_instantiate(list(ob.hyps) + [a_ for a_ in extra if z3.is_quantifier(a_)], ob.goal_sk, parts=True)
             extra = extra + inst_first + inst_rest
         except z3.Z3Exception:
             ob.goal_sk = None
@@ -677,6 +678,7 @@ def prepare(ob):
             # goal-directed core: only the ground facts connected to the goal and the instances obtained from them
             smts["core"] = to_smt2(ob, [h for h in extra0 + inst_tiny if _quantifier_free(h)], hyps=[h for h in core_ground if _quantifier_free(h)], som=True)
             smts["coreu"] = to_smt2(ob, [h for h in extra0 + inst_tiny_nd if _quantifier_free(h)], hyps=[h for h in core_ground if _quantifier_free(h)], som=True)
+            smts["core1"] = to_smt2(ob, [h for h in extra0 + inst_tiny_1 if _quantifier_free(h)], hyps=[h for h in core_ground if _quantifier_free(h)], som=True)
         if getattr(ob, "goal_sk", None) is not None:
             # the same queries without forall-introduction and explicit instances: the solver's own E-matching order
             smts["all0"] = to_smt2(ob, extra0, plain=True)
